@@ -508,6 +508,28 @@ pub fn cells(tier: Tier) -> Vec<CellPlan> {
         c.oracles = Oracles { c10: true, c02: true, ..Default::default() };
         v.push(plan(c, 0, 4.0));
     }
+    // A server-only helper entity (no replication marker) that carries the relationship and is
+    // moved between two families must never tie them together; two operations per tick, so that
+    // both families are mutated in one tick. (22: one entity fits, two do not)
+    for &max in &[22usize] {
+        let mut c = cells::base(&format!("graph-helper-{max}"), "C10");
+        c.cfg.with_child = true;
+        c.cfg.sync_rel = true;
+        c.cfg.clients = vec![max];
+        c.init = vec![Op::Spawn(0, cells::AB), Op::Spawn(1, cells::AB), Op::Spawn(2, cells::AB), Op::Unmark(1)];
+        c.alphabet = if q {
+            vec![Op::Nop, Op::SetParent(1, 0), Op::SetParent(1, 2), Op::Mut(0, TA), Op::Mut(2, TA)]
+        } else {
+            vec![Op::Nop, Op::SetParent(1, 0), Op::SetParent(1, 2), Op::ClearParent(1), Op::Mut(0, TA), Op::Mut(2, TA), Op::Mark(1)]
+        };
+        c.ops_per_round = 2;
+        c.rounds = 3;
+        c.tick_choice = false;
+        c.env = Env::perfect();
+        c.split_stage = true;
+        c.oracles = Oracles { c10: true, c02: true, ..Default::default() };
+        v.push(plan(c, 0, 1.0));
+    }
     {
         let mut c = cells::three_comps("C10", 1);
         c.oracles = Oracles { c10: true, c02: true, c01: true, ..Default::default() };
